@@ -154,6 +154,10 @@ def check_c02(rep):
     nokeys = ["Encode", "Encrypt", "Add", "Sub", "Multiply", "Negate", "AddPlain", "MulPlain", "ModSwitchNext", "ToNtt", "FromNtt"]
     for nm, ps in (("special_bfv", "bfv_8_17_50,50,50s"), ("special_bgv", "bgv_8_17_50,40,50s"), ("single_bfv", "bfv_8_17_58"), ("single_bgv", "bgv_8_17_58")):
         run_instance(rep, nm, ps, actions=nokeys, depth=5 if quick else 6, extra_sample=2000 if quick else 20000)
+    # plain moduli that are not prime (no batching; BGV correction factors are units modulo a composite)
+    for nm, ps in (("pow2_bfv", "bfv_8_16_50,50,50,50"), ("pow2_bgv", "bgv_8_16_50,50,50,50"), ("comp_bgv", "bgv_8_15_50,44,50,50")):
+        run_instance(rep, nm, ps, actions=["Encode", "Encrypt", "Add", "Sub", "Multiply", "Relin", "Negate", "MulPlain", "AddPlain", "ModSwitchNext"], depth=5 if quick else 6,
+                     msgs=[[1, 2, 3], [0, 7], [5, 0, 0, 11, 0, 0, 0, 13], [9]], extra_sample=2000 if quick else 20000)
     # contexts whose modulus chain is not expanded: one level, key switching available, every switch down must be refused
     for nm, ps in (("noexpand_bfv", "bfv_8_17_50,50,50x"), ("noexpand_bgv", "bgv_8_17_50,50,50x")):
         run_instance(rep, nm, ps, actions=["Encode", "Encrypt", "Add", "Sub", "Multiply", "Relin", "Negate", "MulPlain", "ModSwitchNext", "Rotate"], depth=5 if quick else 6,
